@@ -126,3 +126,47 @@ func (m *M) Keep() bool           { return m.opts.Keep }
 func NewM(keep bool, limit time.Duration) *M {
 	return &M{opts: Opts{Keep: keep, Limit: limit}}
 }
+
+// Lookup is not translated: the table denotes it (LibFunc.MayFail).  It ends in Fatalf for a
+// key that starts with '!'.
+func (m *M) Lookup(k string) (int, bool) {
+	if len(k) > 0 && k[0] == '!' {
+		m.Fatalf("bad key %q", k)
+	}
+	if len(k) == 0 {
+		return 0, false
+	}
+	return len(k), true
+}
+
+// Must ends in Fatalf for the empty key and has no results.
+func (m *M) Must(k string) {
+	if k == "" {
+		m.Fatalf("empty key")
+	}
+}
+
+// Walk: calls that may fail, in each of the supported statement forms, inside and after a loop.
+func (m *M) Walk(keys []string) int {
+	os.Getenv("SYNTHFAIL_A")
+	total := 0
+	for len(keys) > 0 {
+		v, ok := m.Lookup(keys[0])
+		if !ok {
+			break
+		}
+		total += v
+		keys = keys[1:]
+	}
+	var last int
+	var found bool
+	last, found = m.Lookup("tail")
+	if found {
+		total += last
+	}
+	if len(keys) > 0 {
+		m.Must(keys[0])
+	}
+	os.Setenv("SYNTHFAIL_B", "")
+	return total
+}
